@@ -3,6 +3,7 @@ import TonicModel.Spec.Shutdown
 import TonicModel.Lemmas.Shutdown
 import TonicModel.Lemmas.ShutdownViews
 import TonicModel.Lemmas.ShutdownProgress
+import TonicModel.Lemmas.ShutdownTrack
 /-
 C13 — Graceful shutdown loses no accepted call.  Property theorems only; the invariant and its
 preservation are in `Lemmas/Shutdown`, the oracle in `Spec/Shutdown`.
@@ -141,6 +142,30 @@ theorem C13_resolve_enabled_iff (s : State) :
     cases hgr : s.cfgGraceful with
     | false => simp [hgr] at this
     | true => exact this.2 (h3 hgr)
+
+/-- (a, step by step) An accepted call is never dropped by the server: for every reachable state
+and EVERY step out of it — the signal, the accept loop ending, `send`, a connection task seeing the
+signal or its age limit, graceful shutdown, the final GOAWAY, other connections closing, the serve
+future resolving, … — other than the caller's own `cancel` of this call or `peerDrop` of its
+connection: the call is still there and still accepted, its true outcome is unchanged, what was
+written to it is only extended, what the caller received has only grown; and if its connection is
+closed in the new state, the caller holds the complete outcome. -/
+theorem C13_inflight_never_dropped {g b a : Bool} {s s' : State} {l : Label} {c j : Nat}
+    {cn : Conn} {k : Call} (h : Reachable g b a s) (hs : step s l = some s')
+    (hc : s.conns[c]? = some cn) (hk : cn.calls[j]? = some k)
+    (hst : k.started = true) (hcan : k.cancelled = false) (hpg : cn.peerGone = false)
+    (hl1 : l ≠ .cancel c j) (hl2 : l ≠ .peerDrop c) :
+    ∃ cn' k', s'.conns[c]? = some cn' ∧ cn'.calls[j]? = some k'
+      ∧ k'.started = true ∧ k'.cancelled = false ∧ cn'.peerGone = false
+      ∧ k'.plan = k.plan ∧ (∃ more, k'.sent = k.sent ++ more) ∧ k.recv ≤ k'.recv
+      ∧ (cn'.closed = true → (callView cn' k').got = (callView cn' k').plan) := by
+  obtain ⟨cn', k', h1, h2, h3, h4, h5, h6, h7, h8⟩ := step_keeps_call hs hc hk hcan hpg hl1 hl2
+  have hg' := good_step (good_reachable h) hs
+  have hcm := mem_of_getElem? h1
+  have hkm := mem_of_getElem? h2
+  have hk' := hg'.conns cn' hcm
+  refine ⟨cn', k', h1, h2, h5 hst, h3, h4, h6, h7, h8, fun hcl => ?_⟩
+  exact callView_complete (hk'.calls_ok k' hkm) (hk'.closed_calls hcl h4 k' hkm (h5 hst) h3)
 
 /-- The server's own steps (tonic's tasks, hyper, handlers) cannot go on for ever: any run made
 of internal steps only is at most `weight s` long — from ANY state, for any interleaving. -/
